@@ -51,7 +51,8 @@ func (c Cfg) Options() klevdb.Options {
 type Dis struct {
 	Props []string
 	Msg   string
-	Fatal bool // found by the per-step oracle: model and log may have diverged, do not expand
+	Fatal bool   // found by the per-step oracle: model and log may have diverged, do not expand
+	Sig   string // canonical signature (engines that classify failures themselves)
 }
 
 func (d Dis) Has(p string) bool {
@@ -74,9 +75,13 @@ type World struct {
 
 	// Wrap, when set, wraps every handle after Open (crash engine: marks).
 	OnOpen func(klevdb.Log) klevdb.Log
-	// Hooks for engines that need to see calls (crash engine).
-	BeforeCall func(name string)
-	AfterCall  func(name string, res string)
+	// Tracer, when set, sees the API calls that matter to the crash engine.
+	// End is called after the model has been updated; acked is the offset the
+	// call acknowledged as durable (-1: none).
+	Tracer interface {
+		Begin(call string)
+		End(call string, acked int64)
+	}
 
 	// AtClose, when set, is called whenever the directory has just been closed.
 	AtClose func(*World)
@@ -102,6 +107,12 @@ const BaseT int64 = 1_000_000
 
 // NewWorld creates a fresh directory under root and opens a log in it.
 func NewWorld(root string, cfg Cfg) (*World, error) {
+	return NewWorldWith(root, cfg, nil)
+}
+
+// NewWorldWith lets the caller prepare the world (tracer, journal) before
+// the first Open.
+func NewWorldWith(root string, cfg Cfg, prepare func(w *World)) (*World, error) {
 	dir, err := os.MkdirTemp(root, "w")
 	if err != nil {
 		return nil, err
@@ -110,7 +121,13 @@ func NewWorld(root string, cfg Cfg) (*World, error) {
 	vtime.SetClock(Epoch)
 	w := &World{Dir: dir, Cfg: cfg, M: model.New()}
 	w.M.LastT = BaseT
-	if err := w.open(cfg.Options()); err != nil {
+	if prepare != nil {
+		prepare(w)
+	}
+	w.begin("Open")
+	err = w.open(cfg.Options())
+	w.end("Open", -1)
+	if err != nil {
 		w.Cleanup()
 		return nil, err
 	}
@@ -141,6 +158,18 @@ func (w *World) Cleanup() {
 	_ = os.RemoveAll(w.Dir)
 	for _, d := range w.bkDirs {
 		_ = os.RemoveAll(d)
+	}
+}
+
+func (w *World) begin(call string) {
+	if w.Tracer != nil {
+		w.Tracer.Begin(call)
+	}
+}
+
+func (w *World) end(call string, acked int64) {
+	if w.Tracer != nil {
+		w.Tracer.End(call, acked)
 	}
 }
 
@@ -304,9 +333,13 @@ func (w *World) apply(kind, arg string) bool {
 		vtime.Tick(2 * time.Hour)
 		return true
 	case "S":
+		w.begin("Sync")
 		n, err := w.L.Sync()
 		if err != nil || n != w.M.Next {
 			w.failf("C02", "Sync() = (%d, %v), want (%d, nil)", n, err, w.M.Next)
+			w.end("Sync", -1)
+		} else {
+			w.end("Sync", n)
 		}
 		return true
 	case "L":
@@ -392,17 +425,20 @@ func (w *World) publish(arg string) bool {
 	for i := range msgs {
 		wantGrowth += w.L.Size(klevdb.Message{Key: msgs[i].Key, Value: msgs[i].Value})
 	}
-	if w.BeforeCall != nil {
-		w.BeforeCall("Publish")
-	}
+	w.begin("Publish")
 	next, err := w.L.Publish(msgs)
-	if w.AfterCall != nil {
-		w.AfterCall("Publish", fmt.Sprintf("%d,%v", next, err))
-	}
 	if err != nil {
+		w.end("Publish", -1)
 		w.failf("C01,C02", "Publish(%d msgs) failed: %v", len(msgs), err)
 		return false
 	}
+	defer func() {
+		if w.Cfg.AutoSync {
+			w.end("Publish", next)
+		} else {
+			w.end("Publish", -1)
+		}
+	}()
 	if next != w.M.Next+int64(len(msgs)) {
 		w.failf("C02", "Publish(%d msgs) returned %d, want %d", len(msgs), next, w.M.Next+int64(len(msgs)))
 	}
@@ -415,7 +451,7 @@ func (w *World) publish(arg string) bool {
 		}
 	}
 	w.M.Publish(want)
-	if single {
+	if single && w.Tracer == nil {
 		segsAfter, sizeAfter := DirSizes(w.Dir)
 		if w.Cfg.Ver == 2 {
 			wantGrowth += int64(segsAfter-segsBefore) * 16
@@ -515,17 +551,9 @@ func (w *World) delete(offs []int64) bool {
 	w.BkClean = false
 	req := set(offs)
 	bases, vers := SegVersions(w.Dir)
-	if w.BeforeCall != nil {
-		w.BeforeCall("Delete")
-	}
+	w.begin("Delete")
 	del, size, err := w.L.Delete(req)
-	if w.AfterCall != nil {
-		var o []int64
-		for _, d := range del {
-			o = append(o, d.Offset)
-		}
-		w.AfterCall("Delete", fmt.Sprintf("%s;%v", JoinInts(o), err))
-	}
+	defer w.end("Delete", -1)
 	what := fmt.Sprintf("Delete(%v)", offs)
 	hasRel := false
 	minOff := int64(1 << 62)
@@ -628,6 +656,8 @@ type passLog struct {
 
 func (p *passLog) Delete(req map[int64]struct{}) ([]klevdb.Message, int64, error) {
 	bases, vers := SegVersions(p.w.Dir)
+	p.w.begin("Delete")
+	defer p.w.end("Delete", -1)
 	del, size, err := p.Log.Delete(req)
 	if err == nil {
 		p.w.checkDeleted(fmt.Sprintf("Delete pass(%v)", keys(req)), req, toModels(del), size, bases, vers)
@@ -645,15 +675,13 @@ func (p *passLog) Delete(req map[int64]struct{}) ([]klevdb.Message, int64, error
 // reopen: Close + Open with options re-drawn. arg is a comma list of flags.
 func (w *World) reopen(arg string) bool {
 	if w.L != nil {
-		if w.BeforeCall != nil {
-			w.BeforeCall("Close")
-		}
+		w.begin("Close")
 		err := w.L.Close()
-		if w.AfterCall != nil {
-			w.AfterCall("Close", fmt.Sprint(err))
-		}
 		if err != nil {
 			w.failf("C01", "Close failed: %v", err)
+			w.end("Close", -1)
+		} else {
+			w.end("Close", w.M.Next)
 		}
 		w.L = nil
 	}
@@ -677,13 +705,9 @@ func (w *World) reopen(arg string) bool {
 			w.failf("C19", "Close(readonly) failed: %v", err)
 		}
 	}
-	if w.BeforeCall != nil {
-		w.BeforeCall("Open")
-	}
+	w.begin("Open")
 	err := w.open(o)
-	if w.AfterCall != nil {
-		w.AfterCall("Open", fmt.Sprint(err))
-	}
+	w.end("Open", -1)
 	if err != nil {
 		w.failf("C01", "Open(%s) failed: %v", arg, err)
 		return false
